@@ -567,3 +567,5 @@ Arguments ndonew : simpl never.
 Arguments completedw : simpl never.
 Arguments basew : simpl never.
 Arguments blen : simpl never.
+#[export] Hint Rewrite getp_setp getp_setp_o getp_setp_o' net_setp getmq_setp getmr_setp getst_setp : bis.
+#[export] Hint Rewrite gacc_setp gdone_setp ndonew_setp_o completedw_setp_o basew_setp_o : bis.
